@@ -16,6 +16,7 @@ VERIF = os.path.dirname(HERE)
 EXTRACTORS = ["liberrors", "resolvegen"]
 KNOWN_PY = "exp2python-abort-on-attribute"
 KNOWN_PY_FUNC = "exp2python-abort-on-function-parameter"
+KNOWN_PY_IFACE = "exp2python-abort-on-partial-interface-clause"
 
 
 def observed(r, table):
@@ -34,6 +35,9 @@ def oracle(case, tool, ob):
     errs = [d for d in ob["diags"] if d[4]]
     crashed = st in ("abort", "timeout") or st.startswith("signal")
     if tool == "exp2python" and crashed and case.verdict == "accept" and not errs:
+        if any(l.startswith("iface ") and l.endswith(" items") for l in case.proto):
+            return (KNOWN_PY_IFACE, f"exp2python ends with {st} (not on every run) on a valid multi-schema file with a partial USE/REFERENCE clause: "
+                                    "print_file() hands an uninitialised File_holder to addUseRefNames(), which writes to files->create")
         if has_attr(case):
             return (KNOWN_PY, f"exp2python ends with {st} on a valid schema that has an entity attribute (no ERROR printed)")
         if any(l.startswith("func ") for l in case.proto):
@@ -147,27 +151,34 @@ def run(ctx):
     proof_ok, b, model, table = pr
     quick = ctx.tier == "quick"
     first = None
+    # an extractor that no longer recognises the source is answered with the widest sweep, not with a shrug
+    escalate = any(n == "extract" for n, _ in ctx.broken) or not proof_ok
+    big = (not quick) or escalate
     streams = []
     cc = corpus_cases()
     if cc:
         streams.append(("corpus", cc, X.TOOLS))
-    streams.append(("generated", X.gen_cases(ctx.rng, 8 if quick else 300, 6, lexical=True), X.TOOLS))
+    chains = [X.gen_chain_case(ctx.rng, f"ch{k}") for k in range(24 if not big else 400)]
+    streams.append(("chained-imports", chains, ["check-express"] if quick else X.TOOLS))
     graphs = []
-    for k in range(40 if quick else 3000):
-        graphs.append(X.gen_graph_case(ctx.rng, f"gs{k}", "sub"))
-        graphs.append(X.gen_graph_case(ctx.rng, f"gl{k}", "sel"))
+    for k in range(60 if not big else 3000):
+        graphs.append(X.gen_graph_case(ctx.rng, f"gs{k}", "sub", outside=(k % 2 == 0)))
+        if k % 2 == 0:
+            graphs.append(X.gen_graph_case(ctx.rng, f"gl{k}", "sel", outside=(k % 4 == 0)))
     streams.append(("cycle-graphs", graphs, ["check-express"]))
+    streams.append(("generated", X.gen_cases(ctx.rng, 8 if quick else 300, 6, lexical=True), X.TOOLS))
+    streams.append(("multi-schema", X.gen_file_cases(ctx.rng, 5 if quick else 80), X.TOOLS))
     for label, cases, tools in streams:
         fc = run_cases(ctx, b, model, table, cases, label, tools)
         first = first or fc
-        if len(ctx.violations) >= 4:
+        if len(ctx.violations) >= 6:
             break
     if first and not ctx.violations:
         c, t, ob, m, a, mm = first
         ctx.broken.append(("correspondence Express.Resolve/Diag vs " + t,
                            f"{c.name} ({c.cls}; {c.note}): {t} status {ob['status']} files={ob['files'][:3]} {a} vs model {m['status']} backend={m['backend']} {mm}; "
                            f"input: {c.data.decode('latin-1')!r} (the oracle finds the property intact on it)"))
-    ex = next((c for c in streams[-2][1] if c.cls == "missing-supertype"), None)
+    ex = next((c for lab, cs, _ in streams if lab == "generated" for c in cs if c.cls == "missing-supertype"), None)
     if ex:
         ctx.sample({"class": ex.cls, "input": ex.data.decode("latin-1")[:500], "expect": ex.expect})
     ctx.cov["rule"] = ("corpus first (DESIGN witnesses), then grammar-directed valid single-schema files and every single-fault mutant class "
